@@ -680,6 +680,12 @@ impl std::ops::Mul<Interval> for Interval {
         if self.has_nan() || rhs.has_nan() {
             return f32::NAN.into();
         }
+        if (self.has_inf() && rhs.contains(0.0))
+            || (rhs.has_inf() && self.contains(0.0))
+        {
+            // 0 * infinity somewhere inside the ranges (not only at a corner)
+            return f32::NAN.into();
+        }
         let mut out = [0.0; 4];
         let mut k = 0;
         for i in [self.lower, self.upper] {
@@ -707,6 +713,10 @@ impl std::ops::Mul<f32> for Interval {
 
     #[inline]
     fn mul(self, rhs: f32) -> Self {
+        if rhs.is_infinite() && self.contains(0.0) {
+            // 0 * infinity inside the range
+            return f32::NAN.into();
+        }
         let (lower, upper) = if rhs < 0.0 {
             (self.upper * rhs, self.lower * rhs)
         } else {
